@@ -1176,6 +1176,14 @@ class Generator:
             return None
         left = self.pick(fr)
         right = self.pick(fr)
+        if right.id == left.id:
+            # generator exclusion: merging a collection with *itself* runs into the suffix / column-pruning defects
+            # quoted in C01's and C04's own text (df.merge(df2, ...)[both suffixed copies]); those properties are
+            # not claimed, so identical operands are not generated (different members of one lineage still are)
+            others = [m_ for m_ in fr if m_.id != left.id]
+            if not others:
+                return None
+            right = self.pick(others)
         how = self.rng.choice(["inner", "inner", "left", "right", "outer", "leftsemi"])
         common = [c for c in left.cols if c in right.cols and left.cols[c] in ("int", "float", "str", "cat", "dt")
                   and (right.cols[c] == left.cols[c] or {left.cols[c], right.cols[c]} <= {"int", "float"})]
